@@ -6,6 +6,7 @@ mod l_load;
 mod l_compile;
 mod l_resolve;
 mod l_wasm;
+mod l_lspdoc;
 
 fn main() {
     let args: Vec<String> = std::env::args().collect();
@@ -17,6 +18,7 @@ fn main() {
         "compile" => l_compile::run(),
         "resolve" => l_resolve::run(),
         "wasm" => l_wasm::run(),
+        "lspdoc" => l_lspdoc::run(),
         _ => {
             eprintln!("usage: oalimpl <layer>");
             std::process::exit(2);
